@@ -48,6 +48,8 @@ def cif_text(atoms, order=None, omit=()):
             "%.2f" % a["occ"], "%.2f" % a["b"], a["charge"] if a["charge"] else "?", str(a["seq"]), a["resn"], a["chain"],
             q(a["name"]), str(a["model"]),
         ]  # fmt: skip
+        for item, text in a.get("raw", {}).items():  # verbatim item values (malformed-input generators)
+            row[ITEMS.index(item)] = text
         out.append(" ".join(row[i] for i in cols) + " ")
     out.append("# ")
     return "\n".join(out) + "\n"
